@@ -435,6 +435,138 @@ def _native_value(T, k):
     return cls(*vals) if isinstance(vals, tuple) else cls(vals)
 
 
+# ---------------------------------------------------------------------------------------------- bounded: native floats
+def _grid(T):
+    from genlm.grammar import semiring as S
+    F = Fraction
+    inf = math.inf
+    if T == "Boolean":
+        return [S.Boolean(True), S.Boolean(False), S.Boolean.zero, S.Boolean.one]
+    floats = [0.0, 1e-40, 4e-16, 1e-9, 0.25, 0.5, 1.0, 3.0, 1e16, 1e40]
+    fracs = [F(0), F(1, 10**40), F(1, 3), F(1), F(5, 2)]
+    # negative values only among exact Fractions: a float sum with cancellation loses digits legitimately
+    exact = fracs + [F(-1, 2), F(-9, 10)]
+    if T == "Float":
+        return [floats + fracs, exact]
+    if T == "Real":
+        return [[S.Real(x) for x in floats + fracs] + [S.Real.zero, S.Real.one], [S.Real(x) for x in exact] + [S.Real.zero, S.Real.one]]
+    if T == "MaxTimes":
+        return [S.MaxTimes(x) for x in floats + fracs] + [S.MaxTimes.zero, S.MaxTimes.one]
+    if T in ("Log", "MaxPlus"):
+        cls = getattr(S, T)
+        return [cls(x) for x in (-inf, -1500.0, -800.0, -700.0, -50.0, -3.0, -1.0, -0.5, -1e-9, 0.0, 2.0, 800.0)] + [cls.zero, cls.one]
+    cls = getattr(S, T)
+    ps = [F(0), F(1, 4), F(1, 2), F(1, 3), F(2), 0.25, 1e-9]
+    rs = [F(0), F(-1, 2), F(3, 2), 1e-12]
+    return [cls(p_, r_) for p_ in ps for r_ in rs][::3] + [cls.zero, cls.one]
+
+
+def _num_eq(x, y, logdomain=False):
+    if isinstance(x, bool) or isinstance(y, bool):
+        return bool(x) == bool(y)
+    if isinstance(x, Fraction) and isinstance(y, Fraction):
+        return x == y
+    fx, fy = float(x), float(y)
+    if fx == fy:
+        return True
+    if math.isnan(fx) or math.isnan(fy) or math.isinf(fx) or math.isinf(fy):
+        return False
+    if logdomain:
+        return abs(fx - fy) <= 1e-9 * max(1.0, abs(fx), abs(fy))
+    return abs(fx - fy) <= 1e-9 * max(abs(fx), abs(fy))
+
+
+def _val_eq(T, l, r):
+    sl = l if T == "Float" else l.score
+    sr = r if T == "Float" else r.score
+    if isinstance(sl, tuple) or isinstance(sr, tuple):
+        return isinstance(sl, tuple) and isinstance(sr, tuple) and len(sl) == len(sr) and all(_num_eq(a, b) for a, b in zip(sl, sr))
+    return _num_eq(sl, sr, logdomain=T in ("Log", "MaxPlus"))
+
+
+def _star_defined(T, a):
+    s = a if T == "Float" else a.score
+    if T == "Boolean":
+        return True
+    if T in ("Real", "Float"):
+        return -1 < s < 1
+    if T == "MaxTimes":
+        return 0 <= s <= 1
+    if T == "MaxPlus":
+        return s <= 0
+    if T == "Log":
+        return s < 0
+    return 0 <= s[0] < 1
+
+
+def float_grid(run):
+    """BOUNDED layer: the laws evaluated by CPython on the real classes over a grid of values per type that includes what the
+    proof abstracts away (A1: floats as reals): scores hundreds of nats apart in the log types, magnitudes from 1e-40 to 1e40,
+    sums below 1e-15, exact Fractions next to floats, the zero / one constants.  Equality up to relative 1e-9 (scores of the log
+    types: absolute 1e-9 * max(1, |score|)); exact for Fractions and Booleans.  Magnitudes are kept inside 1e+-40 so that no triple
+    product leaves the double range (overflow of a correct implementation is not a rounding error the property has to excuse)."""
+    from genlm.grammar import semiring as S
+    import warnings
+    n = 0
+    with warnings.catch_warnings():
+        warnings.simplefilter("ignore")
+        for T in TYPES:
+            cls = getattr(S, T)
+            grids = _grid(T)
+            grids = grids if isinstance(grids[0], list) else [grids]
+            z, o = cls.zero, cls.one
+            star = (lambda x: S.Float.star(x)) if T == "Float" else (lambda x: x.star())
+            if T == "Float":
+                z, o = S.Float.zero, S.Float.one
+            triples, pairs, singles = [], [], []
+            for vals in grids:
+                t3 = list(itertools.product(vals, repeat=3))
+                if len(t3) > 1500:
+                    t3 = random.Random(run.seed).sample(t3, 1500) + [(a, b, c) for a in vals[:6] for b in vals[-6:] for c in vals[3:9]]
+                triples += t3
+                pairs += [(a, b) for a in vals for b in vals]
+                singles += [(a,) for a in vals]
+            for law in LAWS:
+                if law == "zero-neq-one":
+                    continue
+                k = ARITY[law]
+                combos = singles if k == 1 else (pairs if k == 2 else triples)
+                bad = None
+                for xs in combos:
+                    a = xs[0]
+                    b = xs[1] if k > 1 else None
+                    c = xs[2] if k > 2 else None
+                    if law.startswith("star") and not _star_defined(T, a):
+                        continue
+                    try:
+                        l, r = {
+                            "add-assoc": lambda: ((a + b) + c, a + (b + c)), "add-comm": lambda: (a + b, b + a),
+                            "add-zero-right": lambda: (a + z, a), "add-zero-left": lambda: (z + a, a),
+                            "mul-assoc": lambda: ((a * b) * c, a * (b * c)), "mul-comm": lambda: (a * b, b * a),
+                            "mul-one-right": lambda: (a * o, a), "mul-one-left": lambda: (o * a, a),
+                            "zero-annihilates-right": lambda: (a * z, z), "zero-annihilates-left": lambda: (z * a, z),
+                            "distrib-left": lambda: (a * (b + c), a * b + a * c), "distrib-right": lambda: ((a + b) * c, a * c + b * c),
+                            "star-right": lambda: (star(a), o + a * star(a)), "star-left": lambda: (star(a), o + star(a) * a),
+                        }[law]()
+                    except Exception as e:  # noqa: BLE001
+                        bad = (xs, f"raises {type(e).__name__}: {e}", "")
+                        break
+                    n += 1
+                    if not _val_eq(T, l, r):
+                        bad = (xs, repr(l), repr(r))
+                        break
+                run.count(0, key=f"grid:{T}:{law}")
+                if bad is not None:
+                    xs, l, r = bad
+                    run.violation(f"C16/semiring.{T}/{law}", f"law fails on native values: {law} for {T}",
+                                  dict(type=T, law=law, operands=[repr(x) for x in xs], lhs=l, rhs=r, replayed=True, layer="bounded float grid"),
+                                  signature=f"{T}:{law}:grid")
+    run.count(n)
+    run.rule("native grid: per type 10-16 values (floats 0, 1e-40 .. 1e40, 4e-16; Fractions incl. 1/10^40 and negatives; log-type scores -inf, -1500 .. 800; "
+             "entropy/expectation pairs; the zero/one constants); every law on all singles/pairs and on <= 1716 triples; equality up to relative 1e-9, exact on Fractions")
+    run.extra["float_grid_evaluations"] = n
+
+
 def purity(run):
     """C16/semiring.<T>/operators-pure: frame condition `modifies nothing` on every method a weight of type T answers to (its own and
     the inherited ones, whatever their names: an added __iadd__/__imul__ is enumerated like any other), except the constructor, which
@@ -566,6 +698,7 @@ def run(run, only=None):
             run.obligation(name, r["verdict"], backend=r["backend"], ms=r["ms"], detail=r.get("detail", ""))
     run.extra["must_fail_twins_refuted"] = refuted_twins
     purity(run)
+    float_grid(run)
     if len(run.obligations) == 0:
         raise RuntimeError("vacuity guard: zero obligations generated")
 
